@@ -16,15 +16,36 @@ def reply? (s : String) : Option Reply :=
       let st ← status.toNat?
       let prob := undash (":".intercalate probRev.reverse)
       -- Replay-Nonce fields: `-` = no header, else values joined by `+`, `~` = an empty value
+      -- an optional `@<body token>` follows the nonce fields
+      let (nonce, body) := match nonce.splitOn "@" with
+        | [n, b] => (n, b)
+        | _ => (nonce, "")
       let hdr := if nonce == "-" then [] else (nonce.splitOn "+").map fun v => if v == "~" then "" else v
-      pure (.resp ⟨st, prob, hdr⟩)
+      pure (.resp ⟨st, prob, hdr, body⟩)
     | [] => none
   | [] => none
 
-def call? (s : String) : Option Call :=
-  if s == "D" then some .discover else if s == "R" then some .revokeAuthz
-  else if s == "O" then some .newOrder else if s == "A" then some .accept
-  else if s == "G" then some .getAuthz else if s == "N" then some .register else none
+def call? (s : String) : Option Call := apiTable.lookup s
+
+/-- the members of a body token that the returned Go value of this call can show -/
+def keepMembers (call : String) : List String :=
+  if call == "G" || call == "W" || call == "Z" then ["e", "w", "c", "i"]        -- *Authorization
+  else if call == "O" || call == "Q" || call == "V" then ["e", "z", "f", "crt"] -- *Order
+  else if call == "A" || call == "C" then ["tok"]                               -- *Challenge
+  else if call == "F" || call == "X" then ["k"]                                 -- certificate chain
+  else []                                                                       -- *Account: status only
+
+def project (call : String) (b : String) : String :=
+  match b.splitOn "/" with
+  | [] => b
+  | status :: ms =>
+    let keep := keepMembers call
+    let kept := ms.filter fun m => keep.contains ((m.splitOn "=").headD "")
+    if call == "F" || call == "X" then "pem/" ++ (kept.head?.getD "k=1")   -- a chain of k certificates (1 unless said)
+    else
+      -- wireChallenge.challenge(): a challenge without a status is reported as pending
+      let status := if (call == "A" || call == "C") && status == "" then "pending" else status
+      "/".intercalate (status :: kept)
 
 def listOf? {α} (f : String → Option α) (s : String) : Option (List α) :=
   if s == "-" then some [] else (s.splitOn ",").mapM f
@@ -35,8 +56,12 @@ def showMethod : Method → String
 def showReq (r : Req) : String :=
   s!"{showMethod r.method}:{r.url}:{dash (r.nonce.getD "")}:{if r.method == .post then (if r.kidForm then "k" else "j") else "-"}"
 
-def showOutcome : Outcome → String
+def showOutcome (call : String) : Outcome → String
   | .ok => "ok"
+  | .okBody b => "ok=" ++ project call b
+  | .err .noAccount => "noaccount"
+  | .err .invalid => "invalid"
+  | .err .other => "other"
   | .err (.status c p) => s!"e{c}:{dash p}"
   | .err .transport => "terr"
   | .err .ctx => "ctx"
@@ -49,13 +74,17 @@ def bool? (s : String) : Option Bool :=
   if s == "1" then some true else if s == "0" then some false else none
 
 def handleHttp (o : Op) : String :=
-  match (o.get? "nurl").bind bool?, (o.get? "kid").bind bool?, o.nat? "bo", o.nat? "cancel",
+  -- bo=nil: Client.RetryBackoff is nil; every reply carries `Retry-After: -1`, for which the default
+  -- backoff returns a non-positive delay (defaultBackoff_range), i.e. no retry at all
+  let bo? : Option Nat := if o.get? "bo" == some "nil" then some 0 else o.nat? "bo"
+  match (o.get? "nurl").bind bool?, (o.get? "kid").bind bool?, bo?, o.nat? "cancel",
         (o.get? "calls").bind (listOf? call?), (o.get? "resp").bind (listOf? reply?) with
   | some nurl, some kid, some bo, some cancel, some calls, some script =>
+    let names := ((o.get? "calls").getD "").splitOn ","
     let cfg : Cfg := ⟨nurl, bo, cancel, fun _ => 0⟩
     let st : St := { pool := [], script := script, log := [], kid := kid }
     let (st, outs) := runCalls cfg st calls
-    s!"req={joinOr ((requestsOf st.log).reverse.map showReq)} res={joinOr (outs.map showOutcome)} pool={st.pool.length}"
+    s!"req={joinOr ((requestsOf st.log).reverse.map showReq)} res={joinOr ((names.zip outs).map fun (n, x) => showOutcome n x)} pool={st.pool.length}"
   | _, _, _, _, _, _ => "bad-op"
 
 def insertS (x : String) : List String → List String
